@@ -456,7 +456,12 @@ fn build_utxo(u: &Value) -> Option<Utxo> {
                 // OP_0 OP_IF OP_1 OP_IF OP_CODESEPARATOR OP_ENDIF OP_ENDIF : nested, the outer conditional is not taken
                 4 => lock.extend_from_slice(&[0x00, 0x63, 0x51, 0x63, 0xab, 0x68, 0x68]),
                 // OP_0 OP_IF OP_VERIFY OP_CODESEPARATOR OP_ENDIF : an opcode that would fail, and a separator, both unexecuted
-                _ => lock.extend_from_slice(&[0x00, 0x63, 0x69, 0xab, 0x68]),
+                5 => lock.extend_from_slice(&[0x00, 0x63, 0x69, 0xab, 0x68]),
+                // OP_1 OP_IF OP_ELSE OP_0 OP_IF OP_CODESEPARATOR OP_ENDIF OP_ENDIF : nested inside an else branch that is not taken
+                6 => lock.extend_from_slice(&[0x51, 0x63, 0x67, 0x00, 0x63, 0xab, 0x68, 0x68]),
+                // OP_0 OP_IF OP_ELSE OP_ELSE OP_ENDIF : no separator at all - a conditional with two OP_ELSE and nothing in any
+                // segment, inert under every reading of a repeated OP_ELSE; the script bytes are what the preimage carries
+                _ => lock.extend_from_slice(&[0x00, 0x63, 0x67, 0x67, 0x68]),
             }
         }
         if seps.contains(&p) {
@@ -482,7 +487,7 @@ fn build_utxo(u: &Value) -> Option<Utxo> {
     let last_is_branch = sep_in_branch && branch_tail.is_some();
     let sep_class = if last_is_branch {
         "in-branch"
-    } else if (sep_in_branch && seps.iter().any(|p| *p >= branch_at)) || (sep_untaken && jusize(u, "untaken_form") == 1 && seps.iter().any(|p| *p >= untaken_at)) {
+    } else if (sep_in_branch && seps.iter().any(|p| *p >= branch_at)) || (sep_untaken && matches!(jusize(u, "untaken_form"), 1 | 7..) && seps.iter().any(|p| *p >= untaken_at)) {
         // (a non-empty else branch that is spliced in shifts the index of every later separator, like a taken branch does)
         "after-branch"
     } else if last_sep_end > 0 {
@@ -605,7 +610,7 @@ impl Scenario for SpendNet {
             txid[0] = u as u8;
             utxos.push(json!({"family": family, "m": rng.range(1, n), "keys": keys, "verify": rng.chance(1, 3), "uncompressed": rng.chance(1, 5), "seps": seps,
                 "sep_in_branch": rng.chance(1, 12), "branch_at": rng.below(8), "pad": if rng.chance(1, 4) { *rng.pick(&[1u64, 75, 76, 200, 255, 256, 300]) } else { 0 }, "pad_to": if rng.chance(1, 8) { *rng.pick(&[252u64, 253, 254, 252, 253, 65535, 65536, 65537]) } else { 0 },
-                "branch_form": rng.below(3), "sep_untaken": rng.chance(1, 10), "untaken_at": rng.below(8), "untaken_form": rng.below(6), "lock_api": rng.chance(1, 2), "sep_after_check": rng.chance(1, 4), "multisig_uncompressed": rng.chance(1, 8), "coinbase_like": rng.chance(1, 30), "value": u64s(match rng.below(8) { 0 => 0, 1 => u64::MAX, 2 => u64::MAX - 1, 3 => (1u64 << 53) + 1, 4 => rng.below(1 << 63) | 1, 5 => (1u64 << 63) + 1025, _ => rng.below(1 << 44) }), "txid": hx(&txid), "vout": rng.below(3)}));
+                "branch_form": rng.below(3), "sep_untaken": rng.chance(1, 10), "untaken_at": rng.below(8), "untaken_form": rng.below(8), "lock_api": rng.chance(1, 2), "sep_after_check": rng.chance(1, 4), "multisig_uncompressed": rng.chance(1, 8), "coinbase_like": rng.chance(1, 30), "value": u64s(match rng.below(8) { 0 => 0, 1 => u64::MAX, 2 => u64::MAX - 1, 3 => (1u64 << 53) + 1, 4 => rng.below(1 << 63) | 1, 5 => (1u64 << 63) + 1025, _ => rng.below(1 << 44) }), "txid": hx(&txid), "vout": rng.below(3)}));
         }
         let mut events = vec![json!({"op": "setup", "utxos": utxos, "version": *rng.pick(&[1u32, 2, 0, u32::MAX]), "locktime": *rng.pick(&[0u32, 1, 499_999_999, u32::MAX])})];
         let n_events = rng.range(6, 40);
